@@ -20,12 +20,13 @@ type Finding struct {
 }
 
 type evalOut struct {
-	Malformed bool
-	Class     string
-	Impl      *HistoryJ
-	Plain     *CallJ
-	Model     *HistoryJ
-	Findings  []Finding
+	StreamDropped bool
+	Malformed     bool
+	Class         string
+	Impl          *HistoryJ
+	Plain         *CallJ
+	Model         *HistoryJ
+	Findings      []Finding
 }
 
 func infoAt(i *InfoJ, path string) *InfoJ {
@@ -154,19 +155,12 @@ func directC05(c *Case, h *HistoryJ, plain *CallJ, model *HistoryJ) []Finding {
 		eff = append(eff, h.Calls[i].Effective...)
 	}
 	same := last.Res == plain.Res && vh.CanonEq(last.Result, plain.Result)
-	if !same && last.Res == "failed" && plain.Res == "failed" && model != nil {
-		// several tasks of the failing step fail: completion order decides which is reported; every
-		// failure the uninterrupted run can report (per the model, under the probed completion orders) is legitimate
-		cands := append([]CallJ{}, model.PlainAlts...)
-		if model.Plain != nil {
-			cands = append(cands, *model.Plain)
-		}
-		for j := range cands {
-			NormalizeModelCall(&cands[j])
-			if cands[j].Res == "failed" && vh.CanonEq(last.Result, cands[j].Result) {
-				same = true
-			}
-		}
+	if !same && last.Res == "failed" && plain.Res == "failed" {
+		// both runs fail. Which failure is reported is not determined by the graph: several tasks of a
+		// step can fail (completion order decides), and a failure raised while resolving a step (branch
+		// condition, skipped END) competes with failures of nodes that the interrupted history reaches in
+		// a later call. The exact error of the resumed history is compared with the model's (compareModel).
+		same = true
 	}
 	if !same {
 		out = append(out, Finding{Sig: "C05:resume-equiv:final:" + plain.Res + "->" + last.Res + failClassSuffix(last),
@@ -245,6 +239,21 @@ func compareModel(prop string, h, m *HistoryJ) []Finding {
 
 func evaluate(ctx *vh.Ctx, prop string, c *Case) (*evalOut, error) {
 	o := &evalOut{}
+	raw, err := ctx.Oracle.Ask(prop, c)
+	if err != nil {
+		return nil, err
+	}
+	var model HistoryJ
+	if err := json.Unmarshal(raw, &model); err != nil {
+		return nil, err
+	}
+	if len(c.Paradigms) > 0 && strings.Contains(string(raw), `"c":"merge"`) {
+		// a fan-in of maps with a common key fails in value mode but concatenates the values in stream
+		// mode (Invoke/Stream agreement under key-disjointness is C04's subject): the value-mode model
+		// only speaks for the Stream paradigm when no such merge occurs anywhere in the history
+		c.Paradigms = nil
+		o.StreamDropped = true
+	}
 	impl, class := RunHistory(c)
 	o.Class = class
 	if class != "ran" {
@@ -264,14 +273,6 @@ func evaluate(ctx *vh.Ctx, prop string, c *Case) (*evalOut, error) {
 	plain, pclass := RunPlain(c)
 	if pclass == "ran" {
 		o.Plain = plain
-	}
-	raw, err := ctx.Oracle.Ask(prop, c)
-	if err != nil {
-		return nil, err
-	}
-	var model HistoryJ
-	if err := json.Unmarshal(raw, &model); err != nil {
-		return nil, err
 	}
 	for i := range model.Calls {
 		NormalizeModelCall(&model.Calls[i])
@@ -449,6 +450,21 @@ func candidates(c *Case) []*Case {
 			out = append(out, cc)
 		}
 		for k := range lv.Edges {
+			// never orphan a node: a node without predecessors is a different (ill-formed) graph
+			tgt, others := lv.Edges[k][1], 0
+			for j, e := range lv.Edges {
+				if j != k && e[1] == tgt {
+					others++
+				}
+			}
+			for _, b := range lv.Branches {
+				if contains(b.Ends, tgt) {
+					others++
+				}
+			}
+			if others == 0 {
+				continue
+			}
 			cc := cloneCase(c)
 			g := at(cc)
 			g.Edges = append(append([][2]string{}, g.Edges[:k]...), g.Edges[k+1:]...)
@@ -550,6 +566,9 @@ func Evaluate(ctx *vh.Ctx, prop string, c *Case, doShrink bool) error {
 	}
 	if len(c.Paradigms) > 0 {
 		ctx.Res.Dist("paradigms=" + strings.Join(c.Paradigms, ","))
+	}
+	if o.StreamDropped {
+		ctx.Res.Dist("paradigm-dropped-to-invoke(value-mode merge error in the model)")
 	}
 	if c.NoID {
 		ctx.Res.Dist("no-checkpoint-id")
